@@ -84,12 +84,13 @@ const (
 	hReopen
 	hGetRelease
 	hSnapRevert
+	hSnapWrite
 	hNumOps
 )
 
 var vHistOpNames = []string{"Set", "Delete", "Flush", "Evict", "Snapshot", "SnapshotOfSnapshot", "CloseSnapshot",
 	"RemoveCollection", "SetCollection(existing)", "SetCollection(new)", "Close(store)", "Churn(other store)",
-	"VisitWithNestedOps", "Flush+Reopen", "GetItem+release", "Snapshot.FlushRevert"}
+	"VisitWithNestedOps", "Flush+Reopen", "GetItem+release", "Snapshot.FlushRevert", "Snapshot.Write"}
 
 func vNewHist(file bool, rc *vRefCounts) *vHist {
 	h := &vHist{rc: rc}
@@ -307,6 +308,26 @@ func (h *vHist) step(op int, maxSnaps int) bool {
 		vAssert("snapshot-revert-file-length", len(h.f.data) == before)
 		// the snapshot itself is now at an earlier flush; stop checking it
 		h.snaps[k].open = false
+	case hSnapWrite:
+		k := h.pickSnap()
+		if k < 0 || len(h.snaps[k].colls) == 0 {
+			return false
+		}
+		vTrace("Snapshot.Write/Set/Delete/Flush")
+		sc := h.snaps[k].s.GetCollection(h.snaps[k].colls[0].name)
+		var before int
+		if h.f != nil {
+			before = len(h.f.data)
+			h.f.resetLogs()
+		}
+		vAssert("snapshot-refuses-write", sc.Write() != nil)
+		vAssert("snapshot-refuses-set", sc.Set([]byte("q"), []byte("q")) != nil)
+		_, derr := sc.Delete([]byte("q"))
+		vAssert("snapshot-refuses-delete", derr != nil)
+		vAssert("snapshot-refuses-flush", h.snaps[k].s.Flush() != nil)
+		if h.f != nil {
+			vAssert("snapshot-ops-wrote-to-file", vAnd(len(h.f.writes) == 0, vAnd(len(h.f.truncs) == 0, len(h.f.data) == before)))
+		}
 	case hRemoveColl:
 		if !o.open {
 			return false
@@ -397,6 +418,13 @@ func (h *vHist) run(k int, mask int, maxSnaps int, check func(label string)) {
 	for op := 0; op < hNumOps; op++ {
 		if vOpAllowed(mask, op) {
 			allowed = append(allowed, op)
+		}
+	}
+	// initial items (not counted in K): lets short histories start from a
+	// non-trivial tree
+	for n := 0; n < vParam("init"); n++ {
+		if !h.step(hSet, maxSnaps) {
+			break
 		}
 	}
 	for step := 0; step < k; step++ {
